@@ -108,6 +108,43 @@ func applyIgnore(bt *gen.Built, lineID int, c ignCase, code string, rng *base.Ra
 			return false, ""
 		}
 		n.Lead = append(n.Lead, ig)
+	case "dangling-end-of-clause":
+		// the comment is the last thing in the body of a case clause (possibly an empty one); the statement of the diagnostic
+		// is the SECOND statement of the next clause: a clause has no closing token, the comment still belongs to the
+		// first clause and nothing is in its scope
+		if c.where != "prev" || !self.IsStatement() || len(self.N.Pre) == 0 || len(self.Parent.Pre) != 1 {
+			return false, ""
+		}
+		{
+			pfirst := strings.TrimSpace(self.Parent.Pre[0].Text)
+			holds := false
+			for _, pre := range []string{"func ", "if ", "for ", "case ", "default:", "{"} {
+				holds = holds || strings.HasPrefix(pfirst, pre) && (strings.HasSuffix(pfirst, "{") || strings.HasSuffix(pfirst, ":"))
+			}
+			first := strings.TrimSpace(self.N.Pre[0].Text)
+			if !holds || strings.Contains(first, ":=") || strings.HasPrefix(first, "var ") || strings.HasPrefix(first, "const ") || strings.HasPrefix(first, "type ") {
+				return false, ""
+			}
+		}
+		{
+			head, next := "switch {", "default:"
+			firstClause := &gen.Node{Pre: []*gen.Line{p.NewLine("case false:")}}
+			switch rng.Intn(3) {
+			case 0:
+				firstClause.Kids = []*gen.Node{{Pre: []*gen.Line{p.NewLine("_ = 1")}}}
+				desc += "+after-statement"
+			case 1:
+				desc += "+empty-clause"
+			case 2:
+				head, next = "select {", "default:"
+				firstClause.Pre[0] = p.NewLine("case <-make(chan int):")
+				firstClause.Kids = []*gen.Node{{Pre: []*gen.Line{p.NewLine("_ = 1")}}}
+				desc += "+select"
+			}
+			firstClause.Kids = append(firstClause.Kids, &gen.Node{Lead: []*gen.Ignore{ig}})
+			second := &gen.Node{Pre: []*gen.Line{p.NewLine(next)}, Kids: []*gen.Node{{Pre: []*gen.Line{p.NewLine("_ = 2")}}, self.N}}
+			self.Parent.Kids[self.Index] = &gen.Node{Pre: []*gen.Line{p.NewLine(head)}, Kids: []*gen.Node{firstClause, second}, Post: []*gen.Line{p.NewLine("}")}}
+		}
 	case "lead-stmt-last-in-clause":
 		// the statement of the diagnostic becomes the LAST statement of a case clause (a clause has no closing token of
 		// its own: the statement ends exactly where the clause ends); the comment leads it, its scope is that statement
@@ -238,6 +275,10 @@ func applyIgnore(bt *gen.Built, lineID int, c ignCase, code string, rng *base.Ra
 			return false, ""
 		}
 		file.PkgTrail = ig
+		if rng.Bool() {
+			file.PkgTrailKeyword = true
+			desc += "+after-keyword"
+		}
 	case "file":
 		switch c.where {
 		case "in":
@@ -280,7 +321,7 @@ func checkC07(replay string) {
 		p  string
 		ws []string
 	}{{"trailing", []string{"in", "prev", "next"}}, {"lead-stmt", []string{"in", "prev", "next"}}, {"lead-compound", []string{"in"}},
-		{"lead-decl", []string{"in", "prev", "next"}}, {"lead-decl-gap", []string{"in", "next"}}, {"file", []string{"in", "other-file"}}, {"package-clause-trailing", []string{"in"}}, {"dangling-end-of-body", []string{"prev"}}, {"trailing-on-closing-line", []string{"in", "prev"}}, {"lead-stmt-last-in-clause", []string{"in"}}} {
+		{"lead-decl", []string{"in", "prev", "next"}}, {"lead-decl-gap", []string{"in", "next"}}, {"file", []string{"in", "other-file"}}, {"package-clause-trailing", []string{"in"}}, {"dangling-end-of-body", []string{"prev"}}, {"trailing-on-closing-line", []string{"in", "prev"}}, {"lead-stmt-last-in-clause", []string{"in"}}, {"dangling-end-of-clause", []string{"prev"}}} {
 		for _, w := range pl.ws {
 			placements = append(placements, ignCase{placement: pl.p, where: w})
 		}
@@ -313,6 +354,16 @@ func checkC07(replay string) {
 				}
 			}
 		}
+		inFirstDecl := map[int]bool{}
+		for _, pk := range bt0.P.Pkgs {
+			for _, f := range pk.Files {
+				if len(f.Decls) > 0 {
+					for _, l := range flatNode(f.Decls[0]) {
+						inFirstDecl[l.ID] = true
+					}
+				}
+			}
+		}
 		byCodeMulti := map[string][]int{}
 		for c, ids := range byCode {
 			for _, id := range ids {
@@ -336,9 +387,21 @@ func checkC07(replay string) {
 			if m := byCodeMulti[code]; len(m) > 0 && k%2 == 0 {
 				ids = m
 			}
-			lineID := ids[rng.Intn(len(ids))]
 			c := placements[(k*7+pi)%len(placements)]
-			c.list = (k + pi*3) % gen.NCodeLists()
+			if c.placement == "package-clause-trailing" {
+				// the declaration that follows the package clause is where a mis-scoped comment would show
+				var firsts []int
+				for _, id := range byCode[code] {
+					if inFirstDecl[id] {
+						firsts = append(firsts, id)
+					}
+				}
+				if len(firsts) > 0 {
+					ids = firsts
+				}
+			}
+			lineID := ids[rng.Intn(len(ids))]
+			c.list = (k + pi*2) % gen.NCodeLists() // (independent of the placement index modulo every common factor of the two cycle lengths)
 			bt := gen.Build(spec)
 			ok, desc := applyIgnore(bt, lineID, c, code, rng)
 			if !ok {
